@@ -35,7 +35,9 @@ TFuse == /\ IsEvent("fuse")
          /\ UNCHANGED <<ix, pos, failing, scen>>   \* the mount's handle has a reader of its own
 \* constructing a reader on the index must not crash, also for an empty blob
 TNew == /\ IsEvent("new") /\ bad' = bad \cup Flag(~Ev.panic, "NewIndexReadSeeker panicked") /\ UNCHANGED <<ix, pos, failing, scen>>
-TNext == TReset \/ TOpen \/ TFail \/ TSeek \/ TRead \/ TFuse \/ TNew
+\* a call of the real reader that did not return (the driver ends the run there)
+THang == /\ IsEvent("hang") /\ bad' = bad \cup {<<scen, l, "the reader did not return from this call (non-termination)">>} /\ UNCHANGED <<ix, pos, failing, scen>>
+TNext == TReset \/ TOpen \/ TFail \/ TSeek \/ TRead \/ TFuse \/ TNew \/ THang
 TSpec == TInit /\ [][TNext]_tvars
 NoBad == bad = {}
 Constr == TLCSet(1, IF TLCGet(1) < l THEN l ELSE TLCGet(1)) /\ (IF TLCGet(1) = l THEN TLCSet(2, <<scen, l>>) ELSE TRUE)
